@@ -10,12 +10,15 @@ import MF.Spec.Lexical
 import MF.Model.Tree
 import MF.Model.Walk
 import MF.Model.TreeParse
+import MF.Model.Expr
+import MF.Spec.PrintToks
 import MF.Gen.Catalog
 import MF.Gen.PosDoc
 import MF.Gen.PosGo
 import MF.Gen.WalkGo
 import MF.Model.Print
 import MF.Gen.SqlGo
+import MF.Model.Handlers
 open MF MF.Lex
 
 def hx (b : Bytes) : String := if b.isEmpty then "-" else toHex b
@@ -103,8 +106,33 @@ def treeRun (prune : Nat) (toks : List String) : String :=
       | none => "FUEL"
     " ".intercalate parts ++ " W " ++ evs
 
+/-- HANDLER channel: the restored lexer is reached by `skip` panic-mode steps, then the handler model runs -/
+def handlerRun (h : Handlers.HKind) (buf : Bytes) (skip : Nat) : String :=
+  match Handlers.advance buf skip Lex.init with
+  | none => "CRASH"
+  | some l =>
+    match Handlers.handler buf h l with
+    | .crash => "CRASH"
+    | .err e => s!"ERR:{errKindName e.kind}:{e.pos}:{e.end}"
+    | .ok o =>
+      let toks := o.tokens.map fmtTok
+      " ".intercalate ([toString o.nodePos, toString o.nodeEnd, toString o.tokens.length] ++ toks ++
+        ["CUR", fmtTok o.final.tok, "SQL", hx (Handlers.badSQL o.tokens)])
+
+def handlerKind? (kind simple : String) : Option Handlers.HKind :=
+  match kind with
+  | "statement" => some .statement
+  | "query" => some (.query (simple == "1"))
+  | "expr" => some .expr
+  | "type" => some .type
+  | _ => none
+
 def handle (line : String) : String :=
   match line.splitOn " " with
+  | ["HANDLER", kind, simple, skip, h] =>
+    match handlerKind? kind simple, skip.toNat?, ofHex? (if h == "-" then "" else h) with
+    | some hk, some k, some buf => handlerRun hk buf k
+    | _, _, _ => "BADREQ"
   | ["LEX", mode, h] =>
     match ofHex? (if h == "-" then "" else h) with
     | some buf => lexRun buf (mode == "n") (buf.length + 2) Lex.init #[]
@@ -138,6 +166,10 @@ def handle (line : String) : String :=
       | .crash => "CRASH"
       | .err e => s!"ERR:{errKindName e.kind}:{e.pos}:{e.end}"
       | .ok ps => "OK " ++ " ".intercalate (ps.map (fun p => s!"{p.pos}:{p.end}:{hx p.statement}"))
+    | none => "BADREQ"
+  | ["EXPR", h] =>
+    match ofHex? (if h == "-" then "" else h) with
+    | some buf => Expr.exprRunRT buf
     | none => "BADREQ"
   | ["POS", h, a, b] =>
     match ofHex? (if h == "-" then "" else h), a.toInt?, b.toInt? with
